@@ -51,22 +51,22 @@ Qed.
 (** ** receiver: the arithmetic of [L2CAPLayer.on_data_received] *)
 
 Lemma gen_rx_append_eq fifo e d : gen_rx_append fifo e d = fifo ++ d.
-Proof. reflexivity. Qed.
+Proof. unfold gen_rx_append. py_arith. Qed.
 
 Lemma gen_rx_complete_cont_eq fifo e d : gen_rx_complete_cont fifo e d = (e <=? length fifo).
-Proof. reflexivity. Qed.
+Proof. unfold gen_rx_complete_cont. py_arith. Qed.
 
 Lemma gen_rx_complete_start_eq fifo e d : gen_rx_complete_start fifo e d = (e <=? length fifo).
-Proof. reflexivity. Qed.
+Proof. unfold gen_rx_complete_start. py_arith. Qed.
 
 Lemma gen_rx_frame_cont_eq fifo e d : gen_rx_frame_cont fifo e d = firstn e fifo.
-Proof. unfold gen_rx_frame_cont. apply py_slice_0. Qed.
+Proof. unfold gen_rx_frame_cont. py_arith. Qed.
 
 Lemma gen_rx_frame_start_eq fifo e d : gen_rx_frame_start fifo e d = firstn e fifo.
-Proof. unfold gen_rx_frame_start. apply py_slice_0. Qed.
+Proof. unfold gen_rx_frame_start. py_arith. Qed.
 
 Lemma gen_rx_is_start_eq fifo e d : gen_rx_is_start fifo e d = (2 <=? length d).
-Proof. reflexivity. Qed.
+Proof. unfold gen_rx_is_start. py_arith. Qed.
 
 Lemma gen_rx_expected_eq fifo e d :
   2 <= length fifo -> N.to_nat (gen_rx_expected fifo e d) = N.to_nat (un_le16 fifo) + 4.
